@@ -11,7 +11,7 @@ import (
 
 func init() {
 	props["C04"] = &propCheck{
-		lean: []string{"JSight.Props.C04", "JSight.Props.C04_Pipeline", "JSight.Props.C04_Build", "JSight.Props.C04_Content", "JSight.Props.C04_Schema", "JSight.Props.C04_Bridge", "JSight.Props.C01_Project", "JSight.Props.C06"},
+		lean: []string{"JSight.Props.C04", "JSight.Props.C04_Pipeline", "JSight.Props.C04_Build", "JSight.Props.C04_Content", "JSight.Props.C04_Schema", "JSight.Props.C04_Bridge", "JSight.Props.C01_Project", "JSight.Props.C17_Param", "JSight.Props.C06"},
 		exes: []string{"jsight-build"},
 		run:  runC04,
 		rule: "generated abstract API models (info, servers, user types with references, enums, tags, URL blocks with HTTP or JSON-RPC methods, path-bearing methods; all four notations, type references and arrays of references) rendered in a plain and in a random surface style; non-trivial = accepted document with >= 2 interactions and >= 1 cross-reference; distinct = distinct rendered bytes",
